@@ -416,6 +416,14 @@ func (x *Explorer) Len(a *Term) *Term {
 				return x.Bin(token.SUB, x.Len(a.Args[0]), x.stripWiden(a.Args[1]), types.Typ[types.Int])
 			}
 		}
+		// arr[lo:] of an array (through its pointer): static length - lo
+		if a.Args[1].Kind != KNone && a.Args[2].Kind == KNone && a.Args[0].Type != nil {
+			if pt, ok := a.Args[0].Type.Underlying().(*types.Pointer); ok {
+				if at, ok := pt.Elem().Underlying().(*types.Array); ok {
+					return x.Bin(token.SUB, x.T.Int(at.Len()), x.stripWiden(a.Args[1]), types.Typ[types.Int])
+				}
+			}
+		}
 		// full slice of an array: its static length
 		if a.Args[1].Kind == KNone && a.Args[2].Kind == KNone && a.Args[0].Type != nil {
 			if pt, ok := a.Args[0].Type.Underlying().(*types.Pointer); ok {
@@ -472,6 +480,10 @@ func (x *Explorer) Bin(op token.Token, a, b *Term, typ types.Type) *Term {
 		if v, ok := foldBin(op, a.Val, b.Val); ok {
 			return x.T.Const(wrapConst(v, typ, x.P.Pkg.TypesSizes), typ)
 		}
+	}
+	// x - x, x ^ x
+	if a == b && (op == token.SUB || op == token.XOR) && isIntegerTerm(a) {
+		return x.T.Const(constant.MakeInt64(0), typ)
 	}
 	// x + 0, x | 0, x - 0
 	if c, ok := b.Int64(); ok && c == 0 && (op == token.ADD || op == token.OR || op == token.SUB || op == token.XOR || op == token.SHL || op == token.SHR) {
